@@ -784,6 +784,12 @@ impl<E: Effect, R: CommandReceiver<E>, S: EventSender<E>> Worker<E, R, S> {
     }
 
     fn check_completed_processes(&mut self) -> Result<(), EnvironmentError> {
+        // Tell the environment which processes terminated in this step, before anybody learns
+        // their result: it closes the resources they still own.
+        for process_id in self.executor.take_exited() {
+            self.sender.send(Event::ProcessExited { process_id })?;
+        }
+
         // Check awaited processes for completion
         let awaited_pids: Vec<ProcessId> = self.awaited.iter().copied().collect();
         for process_id in awaited_pids {
